@@ -58,10 +58,10 @@ prop('C15', units=['bk', 'ord'], level='proof',
      witnesses=['D13'])
 
 prop('C16', units=['bk', 'ord', 'drv'], level='proof',
-     technique='Verus: AffiliatePortfolioSecurityStatuses::new view postcondition + lemma_opening_equiv (opening status == state after an opening Buy) + ledger fold from init_stv',
-     level_text='Deductive proof (Verus) that the ledger started from an opening status equals the ledger after the corresponding Default-affiliate purchase (state equality, then the same fold).',
-     level_note=BK_NOTE,
-     not_covered=['parse_initial_status string splitting / rejection before processing (cmd.rs)', 'call site in the async I/O driver (witness D11)'],
+     technique='Verus: AffiliatePortfolioSecurityStatuses::new view postcondition + lemma_opening_equiv / theorem_buy_block (opening status == state after opening Buys) + ledger fold from init_stv; run_acb_app_to_delta_models (the default affiliate is an extra holder of global splits exactly when the security has an opening position; only the security\'s own entry is read); parse_initial_status (what -b yields satisfies the driver\'s precondition init_ok)',
+     level_text='Deductive proof (Verus) that the ledger started from an opening status equals the ledger after the corresponding Default-affiliate purchase (state equality, then the same fold, theorem_scaled_ledgers with k = 1), that the driver hands exactly the security\'s own opening position to its ledger and to the split expansion, and that parse_initial_status produces, for all argument lists, opening positions of the default affiliate alone with a cost base, filed under their own security.',
+     level_note=BK_NOTE + ' Splitting at ":", trimming and number syntax of the -b argument are stand-ins without assumptions (hole_split_colon, hole_trim_string, Decimal::from_str).',
+     not_covered=['syntax of the -b argument (string code)', 'the glue between parse_initial_status and run_acb_app_to_render_model in cmd.rs / the async I/O driver (witness D11)'],
      witnesses=['D11'])
 
 prop('C17', units=['costs', 'rnd', 'bk', 'ord'], level='proof',
